@@ -244,7 +244,7 @@ def known_matches(k, f):
     of the case, and (if given) the case's api starts with one of `api_prefixes`.  Entries are written by hand
     in known_findings.json and identify one specific failing input class / call site."""
     case = f.get("case") if isinstance(f, dict) else None
-    key = json.dumps(case, sort_keys=True, default=str)
+    key = json.dumps(case, sort_keys=True, default=str) + " " + json.dumps(f.get("clauses") if isinstance(f, dict) else None, default=str)
     ms = k.get("match")
     if isinstance(ms, str):
         ms = [ms]
